@@ -1,101 +1,12 @@
-// Command verif runs the deterministic-simulation checks for ulikunitz/xz.
-//
-//	verif check <id> [--tier quick|thorough] [--seed N]
-//	verif replay [--quiet] <file>
-//	verif list
+// Command verif runs the deterministic-simulation checks for ulikunitz/xz
+// that drive the library through its io.Writer/io.Reader seams (C01..C09,
+// C11..C14, C16). The gxz checks (C10, C15) run from a scratch copy of the
+// repository whose cmd/gxz embeds this command line (see gxzsim).
 package main
 
 import (
-	"fmt"
-	"os"
-	"strconv"
-
 	_ "verif/checks"
-	"verif/sim"
+	"verif/cli"
 )
 
-func usage() {
-	fmt.Fprintln(os.Stderr, "usage: verif check <id> [--tier quick|thorough] [--seed N] | verif replay [--quiet] <file> | verif list")
-	os.Exit(2)
-}
-
-func main() {
-	if len(os.Args) < 2 {
-		usage()
-	}
-	switch os.Args[1] {
-	case "list":
-		for _, id := range sim.IDs() {
-			e, l, _ := sim.Lookup(id).Meta()
-			fmt.Printf("%s engine=%s level=%s\n", id, e, l)
-		}
-	case "check":
-		if len(os.Args) < 3 {
-			usage()
-		}
-		id := os.Args[2]
-		tier := os.Getenv("VERIF_TIER")
-		if tier == "" {
-			tier = "quick"
-		}
-		var seed uint64 = 20260927
-		seedSet := false
-		if s := os.Getenv("VERIF_SEED"); s != "" {
-			if v, err := strconv.ParseUint(s, 10, 64); err == nil {
-				seed, seedSet = v, true
-			} else if v, err := strconv.ParseInt(s, 10, 64); err == nil {
-				seed, seedSet = uint64(v), true
-			}
-		}
-		for i := 3; i < len(os.Args); i++ {
-			switch os.Args[i] {
-			case "--tier":
-				i++
-				tier = os.Args[i]
-			case "--seed":
-				i++
-				v, err := strconv.ParseUint(os.Args[i], 10, 64)
-				if err != nil {
-					usage()
-				}
-				seed, seedSet = v, true
-			default:
-				usage()
-			}
-		}
-		_ = seedSet
-		if tier != "quick" && tier != "thorough" {
-			usage()
-		}
-		c := sim.Lookup(id)
-		if c == nil {
-			fmt.Fprintf(os.Stderr, "unknown check %q\n", id)
-			os.Exit(2)
-		}
-		os.Exit(c.Batch(tier, seed))
-	case "replay":
-		quiet := false
-		args := os.Args[2:]
-		if len(args) > 0 && args[0] == "--quiet" {
-			quiet = true
-			args = args[1:]
-		}
-		if len(args) != 1 {
-			usage()
-		}
-		b, err := os.ReadFile(args[0])
-		if err != nil {
-			fmt.Fprintln(os.Stderr, err)
-			os.Exit(2)
-		}
-		id := peekProperty(b)
-		c := sim.Lookup(id)
-		if c == nil {
-			fmt.Fprintf(os.Stderr, "replay file names unknown property %q\n", id)
-			os.Exit(2)
-		}
-		os.Exit(c.Replay(args[0], quiet))
-	default:
-		usage()
-	}
-}
+func main() { cli.Run() }
